@@ -69,6 +69,28 @@ def gen_case(rng, kinds):
     return m, sig, yb, ob, S, guard
 
 
+PERSIST = {}
+
+
+def persistent_eval(chi, m, sig, yb, ob, S):
+    """the same error-model object and the SAME ndarray objects (overwritten in place) are used for every
+    case of a run: results must not depend on what the object evaluated before"""
+    n, p = S.shape
+    key = (m, n, p)
+    if key not in PERSIST:
+        PERSIST[key] = (classes(chi)[m][0](), np.empty(len(sig)), np.empty(n), np.empty(n), np.empty((n, p)))
+    em, sb, yb_b, ob_b, S_b = PERSIST[key]
+    sb[:] = sig
+    yb_b[:] = yb
+    ob_b[:] = ob
+    S_b[:] = S
+    with np.errstate(all='ignore'):
+        v = float(em.compute_log_likelihood(sb, yb_b, ob_b))
+        pw = np.asarray(em.compute_pointwise_ll(sb, yb_b, ob_b), float).copy()
+        s1, g = em.compute_sensitivities(sb, yb_b, S_b, ob_b)
+    return v, pw, float(s1), np.asarray(g, float).flatten().copy()
+
+
 def run_case(ctx, chi, m, sig, yb, ob, S, guard):
     cls = classes(chi)[m][0]
     em = cls()
@@ -80,6 +102,11 @@ def run_case(ctx, chi, m, sig, yb, ob, S, guard):
         s1, g = em.compute_sensitivities(sig, yb, S, ob)
         s1 = float(s1)
         g = np.asarray(g, float).flatten()
+    pv, ppw, ps1, pg = persistent_eval(chi, m, sig, yb, ob, S)
+    ctx.spec('C04.same_result_from_reused_object_and_buffers/' + m,
+             core.close(pv, v) and core.close(ppw, pw) and core.close(ps1, s1) and
+             (not math.isfinite(v) or core.close(pg, g)), {'model': m, 'sigma': sig, 'ybar': yb, 'obs': ob, 'S': S},
+             {'fresh_object': v, 'reused_object': pv})
     mv, mpw, mg = ctx.model('C04.em', m, list(sig), list(yb), list(ob), [list(r) for r in S])
     ctx.branches.add(m + ':' + core.fclass(mv))
     nontriv = n >= 2 and not np.all(yb == yb[0])
@@ -187,6 +214,16 @@ def run(ctx):
     for i in range(n_cases):
         rng = ctx.sub_rng(i)
         ctx.guard(run_case, ctx, chi, *gen_case(rng, KINDS))
+    # long observation vectors (sums of hundreds / thousands of terms; large and small scales)
+    for j in range(12 if ctx.tier == 'quick' else 120):
+        rng = ctx.sub_rng(2 * 10 ** 6 + j)
+        m = KINDS[j % 4]
+        n = int(rng.choice([150, 480, 1500]))
+        scale = float(rng.choice([1e-3, 1.0, 1e3]))
+        sig = rng.uniform(0.2, 2.0, 2 if m == 'CM' else 1) * (scale if m in ('G', 'CM') else 1.0)
+        yb = rng.uniform(0.3, 3.0, n) * scale
+        ob = yb * rng.uniform(0.7, 1.4, n)
+        ctx.guard(run_case, ctx, chi, m, sig, yb, ob, rng.normal(size=(n, 1)), 'long%d/scale%g' % (n, scale))
     normalisation(ctx, chi, ctx.sub_rng(10 ** 6), 8 if ctx.tier == 'quick' else 80)
 
 
